@@ -54,7 +54,10 @@ class AccessMixin:
                 return self.field_read(p, v, attr, fc, node)     # spec expressions read fields; no dispatch needed
             out = []
             for (q, cls) in self.classof(p, v):
-                out.extend(self.ref_attr(q, VRef(v.t, cls), attr, fc, node))
+                nv = VRef(v.t, cls)
+                if getattr(v, 'outer', None) is not None:
+                    nv.outer = v.outer
+                out.extend(self.ref_attr(q, nv, attr, fc, node))
             return out
         if isinstance(v, (VBytes, VStr, VList)):
             return [Res(p, VFunc('builtin', type(v).__name__ + '.' + attr, self_v=v))]
@@ -91,6 +94,7 @@ class AccessMixin:
         u = VUnion(simp(u.t), u.desc)
         if fc.spec:
             return [Res(p, u)]
+        self.policy_flag(u, attr)
         rs = []
         unset = (u.is_('unset'))
         if feasible(p, unset):
@@ -316,6 +320,8 @@ class AccessMixin:
             return rs
         if isinstance(b, VRef):
             out = []
+            if not fc.spec:
+                self.policy_key(p, b, i, node)
             for (q, cls) in (self.classof(p, b) if not fc.spec else [(p, b.cls or 'dict')]):
                 if cls == 'deque':
                     out.extend(self.deque_index(q, VRef(b.t, 'deque'), i, fc, node))
@@ -470,6 +476,7 @@ class AccessMixin:
                 v = VList(z3.Empty(z3.SeqSort(KSORT[ek])), ek)
         if isinstance(v, VConstList):
             raise Unsupported('storing a list of non-storable element shape into .%s' % attr)
+        self.policy_escape(p, v, 'stored into .' + attr)
         store_value(p, attr, o.t, v)
 
     def store_index(self, p, target, b, i, v, fc):
@@ -504,10 +511,12 @@ class AccessMixin:
             return rs
         if isinstance(b, VRef):
             out = []
+            self.policy_key(p, b, i, node)
             for (q, cls) in self.classof(p, b):
                 if cls != 'dict':
                     raise Unsupported('item store on object of class ' + cls)
                 for (q2, vv) in self.cases(q, v):
+                    self.policy_escape(q2, vv, 'stored as a dict value')
                     self.dict_set(q2, VRef(b.t, 'dict'), i, vv)
                     out.append(Res(q2))
             return out
